@@ -91,6 +91,9 @@ func zzAfterFunc(d time.Duration, f func()) *time.Timer {
 }
 func zzTimerStop(t *time.Timer) bool {
 	g := zzC11.timers[t]
+	if g == nil {
+		return false // not one of the handler's idle timers
+	}
 	was := g.armed
 	g.armed = false
 	g.stops++
@@ -98,6 +101,9 @@ func zzTimerStop(t *time.Timer) bool {
 }
 func zzTimerReset(t *time.Timer, d time.Duration) bool {
 	g := zzC11.timers[t]
+	if g == nil {
+		return false
+	}
 	was := g.armed
 	g.armed = true
 	g.resets = append(g.resets, d)
